@@ -22,6 +22,30 @@ Lemma step_resp_query c s i r h : open_query s i h ->
   step c s (Resp i r) = set_result c (set_attempts s (mark_done i (attempts s))) h r.
 Proof. intros (a & N & D & P & <- & Pg). cbn [step]. rewrite N, D, P, Pg, Nat.eqb_refl. reflexivity. Qed.
 
+(* _handle_retry_decision for RETRY / RETRY_NEXT_HOST on any state S: counter, level, hand-over to the executor *)
+Definition retry_effect (S S1 : state) (dcl : option Z) (t : task) : Prop :=
+  retries S1 = retries S + 1 /\
+  (fin_exc S = None -> session_shut S = false ->
+     fin_res S1 = fin_res S /\ fin_exc S1 = None /\ queue S1 = queue S ++ [t] /\
+     msg_cl S1 = match dcl with Some x => Some x | None => msg_cl S end) /\
+  (fin_exc S = None -> session_shut S = true ->       (* Session.shutdown() happened: the retry is refused *)
+     queue S1 = queue S /\ fin_res S1 = fin_res S /\ fin_exc S1 = (if completed S then None else Some XShutdown)) /\
+  (fin_exc S <> None -> queue S1 = queue S /\ fin_exc S1 = fin_exc S /\ fin_res S1 = fin_res S /\ msg_cl S1 = msg_cl S).
+
+Lemma bump_spec S dcl t :
+  retry_effect S (bump_retry S dcl t) dcl t /\ nconsult (bump_retry S dcl t) = nconsult S /\
+  attempts (bump_retry S dcl t) = attempts S /\ plan (bump_retry S dcl t) = plan S /\ pools (bump_retry S dcl t) = pools S /\
+  errors (bump_retry S dcl t) = errors S.
+Proof.
+  unfold retry_effect, bump_retry, submit. change (session_shut (bump_counters S dcl)) with (session_shut S).
+  destruct (fin_exc S) eqn:F; cbn [is_some].
+  - cbn. rewrite F. repeat split; intros; try reflexivity; try discriminate; congruence.
+  - destruct (session_shut S) eqn:Sh.
+    + unfold fail_with, completed. cbn [fin_res fin_exc bump_counters]. rewrite F.
+      destruct (fin_res S) eqn:R; cbn; rewrite ?F, ?R; repeat split; intros; try reflexivity; try discriminate; congruence.
+    + cbn. rewrite F. repeat split; intros; try reflexivity; try discriminate; congruence.
+Qed.
+
 (* ---- the response of a retryable failure: exactly one consultation, with the documented arguments *)
 Lemma retryable_step c s i h k tag : open_query s i h ->
   let '(d, dcl) := pol c (nconsult s) k tag (retries s) (clarg s k) in
@@ -31,12 +55,8 @@ Lemma retryable_step c s i h k tag : open_query s i h ->
   /\ lookup (errors s1) h = Some (EResp k tag)
   /\ attempts s1 = mark_done i (attempts s) /\ plan s1 = plan s /\ pools s1 = pools s
   /\ match d with
-     | DRetry => retries s1 = retries s + 1 /\ fin_res s1 = fin_res s /\ fin_exc s1 = fin_exc s /\
-                 (fin_exc s = None -> queue s1 = queue s ++ [TRetry true h] /\
-                                      msg_cl s1 = match dcl with Some x => Some x | None => msg_cl s end)
-     | DNextHost => retries s1 = retries s + 1 /\ fin_res s1 = fin_res s /\ fin_exc s1 = fin_exc s /\
-                 (fin_exc s = None -> queue s1 = queue s ++ [TRetry false h] /\
-                                      msg_cl s1 = match dcl with Some x => Some x | None => msg_cl s end)
+     | DRetry => retry_effect s s1 dcl (TRetry true h)
+     | DNextHost => retry_effect s s1 dcl (TRetry false h)
      | DRethrow => fin_exc s1 = (if completed s then fin_exc s else Some (XResp k tag)) /\ fin_res s1 = fin_res s /\
                    queue s1 = queue s /\ retries s1 = retries s /\ msg_cl s1 = msg_cl s
      | DIgnore => fin_res s1 = (if completed s then fin_res s else Some FNone) /\ fin_exc s1 = fin_exc s /\
@@ -49,13 +69,18 @@ Proof.
   destruct (pol c (nconsult s) k tag (retries s) (clarg s k)) as [d dcl].
   unfold handle_decision. eexists. split; [reflexivity|].
   cbn [nconsult set_err errors]. rewrite lookup_upd_same.
+  set (S0 := tick_consult (set_attempts s (mark_done i (attempts s)))).
   destruct d.
-  - cbn; repeat split; try reflexivity; match goal with H : fin_exc s = None |- _ => rewrite H; reflexivity end.
-  - unfold fail_with. change (completed (tick_consult (set_attempts s (mark_done i (attempts s))))) with (completed s).
+  - destruct (bump_spec S0 dcl (TRetry true h)) as (E & B1 & B2 & B3 & B4 & B5).
+    cbn [nconsult attempts plan pools set_err]. rewrite B1, B2, B3, B4.
+    split; [reflexivity|]. split; [reflexivity|]. split; [reflexivity|]. split; [reflexivity|]. split; [reflexivity|]. exact E.
+  - unfold fail_with. change (completed S0) with (completed s).
     destruct (completed s); cbn; repeat split; reflexivity.
-  - unfold finish_with. change (completed (tick_consult (set_attempts s (mark_done i (attempts s))))) with (completed s).
+  - unfold finish_with. change (completed S0) with (completed s).
     destruct (completed s); cbn; repeat split; reflexivity.
-  - cbn; repeat split; try reflexivity; match goal with H : fin_exc s = None |- _ => rewrite H; reflexivity end.
+  - destruct (bump_spec S0 dcl (TRetry false h)) as (E & B1 & B2 & B3 & B4 & B5).
+    cbn [nconsult attempts plan pools set_err]. rewrite B1, B2, B3, B4.
+    split; [reflexivity|]. split; [reflexivity|]. split; [reflexivity|]. split; [reflexivity|]. split; [reflexivity|]. exact E.
 Qed.
 
 (* ---- consultations happen only there *)
@@ -232,6 +257,20 @@ Proof.
   repeat split; try lia; auto; try discriminate.
 Qed.
 
+Lemma submit_frame S t : retries (submit S t) = retries S /\ nconsult (submit S t) = nconsult S /\
+  spec_left (submit S t) = spec_left S /\ (spec_armed (submit S t) = true -> spec_armed S = true).
+Proof.
+  unfold submit. destruct (session_shut S); [|repeat split; auto].
+  destruct (fail_with_same S XShutdown). repeat split; auto. rewrite sbo_armed. discriminate.
+Qed.
+
+Lemma bump_frame S dcl t : retries (bump_retry S dcl t) = retries S + 1 /\ nconsult (bump_retry S dcl t) = nconsult S /\
+  spec_left (bump_retry S dcl t) = spec_left S /\ (spec_armed (bump_retry S dcl t) = true -> spec_armed S = true).
+Proof.
+  unfold bump_retry. destruct (is_some (fin_exc S)); [repeat split; auto|].
+  destruct (submit_frame (bump_counters S dcl) t) as (A & B & C & D). repeat split; auto.
+Qed.
+
 Lemma set_result_counted c s h r s' ev : set_result c s h r = (s', ev) ->
   counted s s' ev /\ spec_left s' = spec_left s /\ (spec_armed s' = true -> spec_armed s = true).
 Proof.
@@ -240,18 +279,23 @@ Proof.
                                    | apply sbo_counted, finish_rows_same]).
   - destruct (pol c (nconsult s) k tag (retries s) (if request_error_kind k then msg_cl s else None)) as [d dcl].
     unfold handle_decision in H. inversion H; subst; clear H.
-    destruct d; try (unfold counted, retry_count; cbn; repeat split; try lia; try discriminate; auto; fail).
+    destruct d.
+    + destruct (bump_frame (tick_consult s) dcl (TRetry true h)) as (A & B & C & D).
+      unfold counted, retry_count. cbn. rewrite A, B. cbn. repeat split; try lia; auto.
     + unfold fail_with. change (completed (tick_consult s)) with (completed s).
       destruct (completed s); unfold counted, retry_count; cbn; repeat split; try lia; try discriminate; auto.
     + unfold finish_with. change (completed (tick_consult s)) with (completed s).
       destruct (completed s); unfold counted, retry_count; cbn; repeat split; try lia; try discriminate; auto.
+    + destruct (bump_frame (tick_consult s) dcl (TRetry false h)) as (A & B & C & D).
+      unfold counted, retry_count. cbn. rewrite A, B. cbn. repeat split; try lia; auto.
   - unfold unprepared in H.
     assert (G : forall ps, unprep_go c s h ps = (s', ev) ->
                 counted s s' ev /\ spec_left s' = spec_left s /\ (spec_armed s' = true -> spec_armed s = true)).
     { intros [[pid qs] ks0] G. unfold unprep_go in G.
       destruct (negb (uses_ks c) && is_some ks0 && negb (opt_eqb (conn_ks s) ks0)); inversion G; subst.
       - apply sbo_counted, fail_with_same.
-      - unfold counted, retry_count; cbn; repeat split; try lia; try discriminate; auto. }
+      - destruct (submit_frame s (TReprepare h qs (if uses_ks c then ks0 else None))) as (A & B & C & D).
+        unfold counted, retry_count. cbn. rewrite A, B. repeat split; try lia; auto. }
     destruct (fut_ps c) as [[[pid pqs] pks]|].
     + destruct (negb (pid =? id)).
       * inversion H; subst. apply sbo_counted, fail_with_same.
@@ -274,7 +318,8 @@ Proof.
     destruct (nth_error (attempts s) i) as [a|] eqn:N; [|inversion H; subst; exact Triv].
     destruct (a_done a) eqn:D; [inversion H; subst; exact Triv|].
     destruct (a_prep a) eqn:P.
-    + inversion H; subst. unfold counted, retry_count. cbn. repeat split; auto; lia.
+    + inversion H; subst. destruct (submit_frame (set_attempts s (mark_done i (attempts s))) (TAfterPrepare (a_host a) r)) as (A1 & B1 & C1 & D1).
+      unfold counted, retry_count. cbn. rewrite A1, B1. cbn. repeat split; auto; lia.
     + destruct (Nat.eqb (a_page a) (page_no s)); [|inversion H; subst; unfold counted, retry_count; cbn; repeat split; auto; lia].
       apply set_result_counted in H. destruct H as (C & L & A). split; [exact C|intros _ _; auto].
   - destruct (nth_error (queue s) k0) as [t|].
